@@ -13,10 +13,7 @@ Proof. exact spec_length. Qed.
 Theorem C05_labels_are_those_requested :
   forall ex labels, groups_of false (Some ex) labels = ex /\
                     (NoDup ex -> StronglySorted Z.lt (groups_of true (Some ex) labels)).
-Proof.
-  intros ex labels. split; [reflexivity|].
-  intros H. apply groups_sorted. now intros ? [= <-].
-Qed.
+Proof. exact labels_are_those_requested. Qed.
 
 (* slot k reduces exactly the elements labelled with the k-th returned label ... *)
 Theorem C05_slot_members :
